@@ -61,6 +61,10 @@ where
         }
     }
 
+    pub fn get_outbound(&self, idx: usize) -> Option<(&WeakNode<K, N, E>, &E)> {
+        self.outbound.get(idx).map(|edge| (&edge.0, &edge.1))
+    }
+
     pub fn find_outbound(&self, node: &K) -> Option<(&WeakNode<K, N, E>, &E)> {
         for edge in self.outbound.iter() {
             if edge.0.upgrade().unwrap().key() == node {
